@@ -147,7 +147,10 @@ def run(tier, seed, replay=None):
                 rng.shuffle(mm.decl_order)
                 if mm.lifetimes and rng.random() < 0.5:
                     mm.lifetimes = list(reversed(mm.lifetimes))
-            it = item_text(mm.names, mm.nparams, rng, form, fixed=m.names)
+            from ..gen_pat import params_of as _po
+            elim = {p_ for p_, v_ in mm.theta.items() if not _po(v_[1])}
+            live = [p_ for p_ in range(mm.nparams) if p_ not in elim]
+            it = item_text([mm.names[p_] for p_ in live], len(live), rng, form, fixed=[m.names[p_] for p_ in live]) if live else ""
             if it and q.mode == "trait":
                 mm.patch = {"add_item": it}
             texts.append((q.block_text(bi), (i, bi), v))
